@@ -88,14 +88,14 @@ func parseCfg(w []string) (caseCfg, bool) {
 			return pp, true
 		}
 		switch {
-		case len(p) == 1 && p[0] == "f":
-			c.quotas = append(c.quotas, qspec{parent: -1})
-		case len(p) == 2 && p[0] == "f": // fixed-window internal limit under quota p[1]
+		case len(p) == 1 && (p[0] == "f" || p[0] == "g"): // g: grouped by the header x-c02
+			c.quotas = append(c.quotas, qspec{parent: -1, grouped: p[0] == "g"})
+		case len(p) == 2 && (p[0] == "f" || p[0] == "g"): // fixed-window internal limit under quota p[1]
 			par, ok := parent(p[1])
 			if !ok || par < 0 {
 				return c, false
 			}
-			c.quotas = append(c.quotas, qspec{parent: par})
+			c.quotas = append(c.quotas, qspec{parent: par, grouped: p[0] == "g"})
 		case len(p) == 4 && p[0] == "c":
 			mx, e1 := strconv.ParseInt(p[1], 10, 64)
 			ex, e2 := strconv.ParseInt(p[2], 10, 64)
